@@ -166,10 +166,13 @@ package netflow9
 //@   ensures [reserved] old(len(d.reader.data)) >= 4 && 4 <= be16(d.reader.base, old(d.reader.count)) && be16(d.reader.base, old(d.reader.count)) <= 255 ==> len(msg.DataSets) == old(len(msg.DataSets))
 //@   ensures [unknown] old(len(d.reader.data)) >= 4 && be16(d.reader.base, old(d.reader.count)) > 255 && !cacheHas9(old(mem), d.raddr, be16(d.reader.base, old(d.reader.count))) ==> len(msg.DataSets) == old(len(msg.DataSets)) && err != nil
 //@   ensures [tplset] old(len(d.reader.data)) >= 4 && be16(d.reader.base, old(d.reader.count)) <= 1 ==> len(msg.DataSets) == old(len(msg.DataSets))
+//@   ensures [reserved.exact] (err == nil || nonfatal9(err)) && 4 <= be16(d.reader.base, old(d.reader.count)) && be16(d.reader.base, old(d.reader.count)) <= 255 ==> d.reader.count == old(d.reader.count) + be16(d.reader.base, old(d.reader.count)+2)   // a reserved flowset is stepped over by exactly its declared length
+//@   ensures [unknown.exact] (err == nil || nonfatal9(err)) && be16(d.reader.base, old(d.reader.count)) > 255 && !cacheHas9(old(mem), d.raddr, be16(d.reader.base, old(d.reader.count))) ==> d.reader.count == old(d.reader.count) + be16(d.reader.base, old(d.reader.count)+2)   // so is a flowset whose template is unknown
 //@   modifies d.reader.data, d.reader.count, msg.DataSets, contents(mem)
 //@   loop 1
 //@     invariant [rdr] rdr(d.reader) && d.reader.base == old(d.reader.base)
 //@     invariant [raddr] d.raddr == old(d.raddr) && msg != nil && setHeader != nil
+//@     invariant [norecords] (4 <= setHeader.FlowSetID && setHeader.FlowSetID <= 255) || (setHeader.FlowSetID > 255 && !cacheHas9(old(mem), d.raddr, setHeader.FlowSetID)) ==> d.reader.count == startCount + 4
 //@     invariant msg.Header == old(msg.Header) && msg.AgentID == old(msg.AgentID)
 //@     invariant startCount == old(d.reader.count) && d.reader.count >= startCount + 4 && old(len(d.reader.data)) >= 4
 //@     invariant setHeader.Length == be16(d.reader.base, startCount+2) && setHeader.FlowSetID == be16(d.reader.base, startCount) && setHeader.Length >= 4
